@@ -11,13 +11,18 @@ pub struct Gen<'a> {
     /// so values *encoded by real code* keep it at 1; see DESIGN 3.5)
     pub max_hash_elems: usize,
     pub max_depth: usize,
+    /// boundary mode (only for values written by the reference peer, never constructed as real
+    /// values): parts at the very edge of what their type accepts and just beyond it - last
+    /// representable days, offsets of almost a day, nanoseconds that carry, durations that overflow.
+    /// The documented outcome of decoding them is whatever the strict decoder says (possibly an error).
+    pub boundary: bool,
 }
 
 const WORDS: &[&str] = &["", "a", "id", "name", "tag", "héllo", "日本語", "x y", "\u{0}", "zzzzzzzzzzzzzzzz"];
 
 impl<'a> Gen<'a> {
     pub fn new(reg: &'a Registry, size: usize) -> Self {
-        Gen { reg, size, max_hash_elems: 1, max_depth: 6 }
+        Gen { reg, size, max_hash_elems: 1, max_depth: 6, boundary: false }
     }
 
     fn uint(&self, rng: &mut Rng, bits: u32) -> u128 {
@@ -78,6 +83,9 @@ impl<'a> Gen<'a> {
     }
 
     fn naive_date(&self, rng: &mut Rng) -> chrono::NaiveDate {
+        if self.boundary && rng.chance(2, 3) {
+            return *rng.pick(&[chrono::NaiveDate::MAX, chrono::NaiveDate::MIN]);
+        }
         loop {
             let year = match rng.below(6) {
                 0 => rng.range(-262_143, 262_142),
@@ -93,6 +101,9 @@ impl<'a> Gen<'a> {
     }
 
     fn moderate_date(&self, rng: &mut Rng) -> chrono::NaiveDate {
+        if self.boundary {
+            return self.naive_date(rng);
+        }
         loop {
             let year = rng.range(-9000, 9000) as i32;
             if let Some(d) =
@@ -104,7 +115,10 @@ impl<'a> Gen<'a> {
     }
 
     fn naive_time(&self, rng: &mut Rng) -> chrono::NaiveTime {
-        let (h, m, s) = (rng.below(24) as u32, rng.below(60) as u32, rng.below(60) as u32);
+        let (mut h, m, s) = (rng.below(24) as u32, rng.below(60) as u32, rng.below(60) as u32);
+        if self.boundary && rng.chance(1, 2) {
+            h = *rng.pick(&[0u32, 23]);
+        }
         let n = match rng.below(4) {
             0 => 0,
             1 => 999_999_999,
@@ -161,6 +175,10 @@ impl<'a> Gen<'a> {
                 }
             }),
             Ty::Str | Ty::DedupStr => Val::Str(self.string(rng)),
+            Ty::Duration if self.boundary => Val::Tuple(vec![
+                Val::U(*rng.pick(&[u64::MAX as u128, u64::MAX as u128 - 1, u64::MAX as u128 - 4, 0])),
+                Val::U(*rng.pick(&[999_999_999u128, 1_000_000_000, 1_999_999_999, 4_294_967_295, 4_000_000_000])),
+            ]),
             Ty::Duration => Val::Tuple(vec![
                 Val::U(self.uint(rng, 64)),
                 Val::U(match rng.below(3) {
@@ -220,19 +238,33 @@ impl<'a> Gen<'a> {
                 Val::Bytes(rng.bytes(n))
             }
             Ty::Boxed(t) => self.val_at(t, rng, depth),
+            Ty::Compressed => {
+                let n = match rng.below(4) {
+                    0 => 0,
+                    1 => 1,
+                    _ => rng.usize_below(self.size * 16 + 1),
+                };
+                Val::Bytes(if rng.chance(1, 2) { vec![rng.next_u64() as u8; n] } else { rng.bytes(n) })
+            }
             Ty::Uuid => Val::Bytes(rng.bytes(16)),
             Ty::Weekday => Val::U(rng.range(1, 7) as u128),
             Ty::Month => Val::U(rng.range(1, 12) as u128),
-            Ty::FixedOffset => Val::I(match rng.below(4) {
+            Ty::FixedOffset => Val::I(match rng.below(6) {
                 0 => 0,
                 1 => 86_399,
                 2 => -86_399,
+                // width boundaries of the zig-zag varint
+                3 => *rng.pick(&[-64i64, 63, 64, -65, -8192, 8191, 8192, -8193]),
                 _ => rng.range(-86_399, 86_399),
             } as i128),
             Ty::Tz => {
                 let tz = rng.pick(&chrono_tz::TZ_VARIANTS);
                 Val::Str(tz.name().to_string())
             }
+            Ty::DateTimeUtc if self.boundary => Val::Tuple(vec![
+                Val::I(*rng.pick(&[i64::MAX as i128, i64::MIN as i128, 8_210_266_876_799, -8_334_601_228_800, 8_210_266_876_800, 59])),
+                Val::U(*rng.pick(&[0u128, 999_999_999, 1_000_000_000, 1_999_999_999, 2_000_000_000, 4_294_967_295])),
+            ]),
             Ty::DateTimeUtc => {
                 let secs = match rng.below(4) {
                     0 => 0,
